@@ -56,6 +56,11 @@ type stepSpec struct {
 	Tiers      []string `json:"tiers"` // empty = both
 	Tags       string   `json:"tags"`
 	Pre        []string `json:"pre"` // commands run (in /verif) before the step, e.g. building a C helper
+	// ExtraBins are further binaries built from the same overlay (go build), e.g. a traced driver
+	ExtraBins []struct {
+		Pkg string `json:"pkg"`
+		Out string `json:"out"`
+	} `json:"extra_bins"`
 }
 
 type checkSpec struct {
@@ -216,6 +221,15 @@ func cmdCheck(args []string) int {
 			fmt.Printf("BUILD-FAILED property=%s step=%s: %v\n%s\n", id, st.Name, err, out)
 			return 2
 		}
+		for _, xb := range st.ExtraBins {
+			xc := exec.Command(goBin, "build", "-overlay", ov[0], "-modfile", ov[1], "-o", filepath.Join(work, "bin", xb.Out), xb.Pkg)
+			xc.Dir = repoDir
+			xc.Env = goEnv(work)
+			if out, err := xc.CombinedOutput(); err != nil {
+				fmt.Printf("BUILD-FAILED property=%s step=%s extra %s: %v\n%s\n", id, st.Name, xb.Pkg, err, out)
+				return 2
+			}
+		}
 		n := st.Shards.get(tier)
 		if n <= 0 {
 			n = 1
@@ -252,7 +266,7 @@ func cmdCheck(args []string) int {
 					"VERIF_SHARD="+strconv.Itoa(i), "VERIF_NSHARDS="+strconv.Itoa(n),
 					"VERIF_OUT="+outFile, "VERIF_BUDGET_S="+strconv.Itoa(budget),
 					"VERIF_SCRATCH="+rdir, "VERIF_DIR="+verifDir, "VERIF_REPO="+repoDir,
-					"VERIF_PROPERTY="+id,
+					"VERIF_PROPERTY="+id, "VERIF_BIN_DIR="+filepath.Join(work, "bin"),
 					"TMPDIR="+rdir,
 				)
 				godebug := "asynctimerchan=0"
